@@ -178,6 +178,7 @@ def is_flush_call(call: ast.Call) -> bool:
 def run(ctx):
     ctx.rule("R05.x", "context-manager model: _batch_call_watchers, batch_call_watchers, discard_events, _syncing and edit_constant interpreted abstractly with the body of the `with` supplied at the `yield` (62 cases: entry state x body ends normally / raises x nesting x queues replaced in the body x Parameter copies made in the body): flag, queues, syncing set and constant flags are, after the block, what they were before; the flush runs iff outermost, after the restore, also when the body raised", floor=1)
     ctx.rule("R05.y", "Event model: Event.__set__ interpreted abstractly on mode (set-reset / set / reset) x the assignment proper succeeds / is refused / a watcher raises: in set-reset the Event is assigned and then reset whatever happens, in set (held so by update/trigger while it is delivered) it is assigned and NOT reset, in reset it is only reset", floor=1)
+    ctx.rule("R05.z", "dependency re-wiring survives a failing method: in the wrappers that call a depends(watch=True) method (_sync_caller, _async_caller) the re-wiring callback (which moves the watchers to a newly attached sub-object) runs before the method, or on every way out of it, so a method that raises does not leave the watchers on the detached object", floor=2)
     ctx.rule("R05.a", "every may-raise node that can follow a TEMP-write of a transient dispatcher field "
                       "(without an intervening ORIG-write) lies in a try whose finally / re-raising catch-all "
                       "handler restores the field", floor=8)
@@ -286,6 +287,38 @@ def run(ctx):
                         ctx.fail("R05.d", f, fn_, "the flush runs while the batching flag is still raised (a raising flush leaves it set)",
                                  key="%s::flush-before-restore::%s" % (f.qualname, fn_.text()))
     _scope_floor(ctx, temp_scopes)
+
+    for q_ in ("param.parameterized._sync_caller", "param.parameterized._async_caller"):
+        wf = ctx.repo.func(q_)
+        wc = ctx.facts.cfg(wf)
+        cbs = [n for n in wc.live_nodes() for c in calls_in(n) if isinstance(c.func, ast.Name) and c.func.id == "callback"]
+        fns = [n for n in wc.live_nodes() for c in calls_in(n) if isinstance(c.func, ast.Name) and c.func.id == "function"]
+        if not cbs or not fns:
+            raise AnalysisError("%s no longer calls both `callback` and `function`" % q_)
+        badz = None
+        for fn_n in fns:
+            # every exit reachable from the method call (normal or exceptional) must have passed the re-wiring, before or after
+            before = any(any(r is fn_n for r in wc.reachable_from([cb])) for cb in cbs)
+            if before:
+                continue
+            seen, stack = set(), [t for l, t in fn_n.succ]
+            while stack and badz is None:
+                n = stack.pop()
+                if n.id in seen:
+                    continue
+                seen.add(n.id)
+                if any(n is cb for cb in cbs) or (n.kind == "br" and norm(n.ast) == "callback" and n.polarity is False):
+                    continue          # re-wired, or there is nothing to re-wire
+                if n is wc.exit or n is wc.excexit:
+                    badz = (fn_n, n is wc.excexit)
+                    break
+                stack.extend(t for l, t in n.succ)
+        if badz:
+            ctx.fail("R05.z", wf, badz[0], "%s calls the watched method before the re-wiring callback and the callback is skipped on the %s way out: when the method raises while a sub-object "
+                                           "is being replaced, the dependency watchers stay on the detached object and the new one is never watched" % (wf.name, "exceptional" if badz[1] else "normal"),
+                     key=q_ + "::rewiring-skipped", input="@depends('mid.leaf.x', watch=True) method raises during top.mid.leaf = new -> later new.x changes are not dispatched")
+        else:
+            ctx.ok("R05.z", wf, fns[0], "the re-wiring callback runs before the method is called")
 
     from checks.shared import event_model
     event_model(ctx, "R05.y", "C05")
